@@ -122,8 +122,8 @@ def gen_unparsable_in_bodies() -> list[dict]:
 
 
 ALPHABET = [("Block: A", "o", 0), ("Watch: X > 1", "o", 4), ("Mark: a", "l", 0), ("Mark: b", "l", 4),
-            ("Mark: c", "l", 8), ("Mark: d", "l", 2), ("# c", "w", 0), ("", "w", 0), ("Macro: M", "o", 8),
-            ("?", "x", 4)]
+            ("Mark: d", "l", 2), ("# c", "w", 0), ("", "w", 0), ("Macro: M", "o", 8), ("?", "x", 4),
+            ("Mark: c", "l", 8)]
 
 
 def gen_exhaustive(maxlen: int, symbols: int) -> list[dict]:
@@ -299,7 +299,7 @@ def run(ctx: Check) -> int:
                 "pattern ('?', ':x', '-5 Mark', …) at their intended indentation, eager nesting in 30 % of the texts, "
                 "every str.splitlines line boundary, a quarter through caller-built ParserMethod objects with foreign line "
                 "ids; (b') every unparsable line x every opener kind x first/middle/last body line x depth 1/2; (c) all "
-                "texts of up to 4/5 lines over a 10/9-line alphabet (openers, leaves, comments, blanks, an unparsable line, "
+                "texts of up to 4/5 lines over a 9-line alphabet (openers, leaves, comments, blanks, an unparsable line, "
                 "indentation 0/2/4/8); (d) arbitrary unicode lines. The oracle judges indentation from the text. Non-trivial = at least two instruction lines of which one is "
                 "indented.")
 
@@ -314,9 +314,8 @@ def run(ctx: Check) -> int:
 
     corpus = [c for c in load_corpus("C17") if "text" in c]
     structured = [gen_structured(rng, ctx.n(12, 40), 0.0 if rng.random() < 0.6 else 0.15)
-                  for _ in range(ctx.n(800, 30000))]
-    exhaustive = gen_exhaustive(ctx.n(4, 5), ctx.n(10, 9)) + \
-        (gen_exhaustive(5, 10)[::7] if ctx.tier == "thorough" else [])
+                  for _ in range(ctx.n(600, 30000))]
+    exhaustive = gen_exhaustive(ctx.n(4, 5), 9)
     unparsable = gen_unparsable_in_bodies()
     uni = [gen_unicode(rng, ctx.n(8, 20)) for _ in range(ctx.n(600, 30000))]
 
@@ -341,8 +340,8 @@ def run(ctx: Check) -> int:
     for name, cases in streams:
         ctx.monitor(cases, oracle)
     ctx.exhaustive = False
-    ctx.extra["exhaustive_scope"] = (f"all texts of 1..{ctx.n(4, 5)} lines over {ctx.n(10, 9)} line shapes "
-                                     f"(thorough: + every 7th text of 5 lines over 10 shapes): "
+    ctx.extra["exhaustive_scope"] = (f"all texts of 1..{ctx.n(4, 5)} lines over 9 line shapes (incl. an indented "
+                                     f"unparsable line): "
                                      f"{len(exhaustive)} texts")
     ctx.assumptions = ["method text is a valid unicode string (no lone surrogates)",
                        "indentation of blank and comment-only lines carries no meaning (IndentationCheckAnalyzer "
